@@ -37,12 +37,12 @@ PROPS = {
         floors={"ok.rolling_apply": 100, "ok.rolling_apply_idx": 100, "ok.rolling2_apply": 100, "ok.rolling2_apply_idx": 100,
                 "ok.rolling_custom": 100, "ok.rolling2_custom": 50, "ok.rolling_custom_iter": 50, "okpath.To": 50, "okpath.Buf": 50,
                 "injected_panics_propagated": 50, "unspecified_removal_positions": 10, "spyout.buffers_verified": 50,
-                "second_series_longer": 20},
+                "second_series_longer": 20, "wrapped_deque_buffers": 20},
         technique="runtime monitoring: online trace automaton over a recording callback (unique-id elements), Miri/ASan on the same executions",
         rule="len 0..N x window 1..len+3 x {recording, stateful (order-sensitive checksum), panicking-at-k} callbacks x 7 driver entry "
              "points and their *_to forms x {returned, caller buffer via entry point, direct *_to} x backends (Vec, VecDeque rotated, "
              "Array1, strided/reversed ArrayView1, Arc<Vec>, Arc<Array1>, OptIter, SpyVec, SpyVecFast, polars 1-3 chunks) x output containers "
-             "(Vec, VecDeque, Array1, SpyOut exactly-once, polars where collectable). Input elements are unique ids 1000+i / 2000+i, the second series 0-2 elements longer than the first; "
+             "(Vec, VecDeque incl. caller-supplied ring buffers with a rotated head, Array1, SpyOut exactly-once, polars where collectable). Input elements are unique ids 1000+i / 2000+i, the second series 0-2 elements longer than the first; "
              "the automaton accepts a call iff it is for the next position with the prescribed removed/start/slice arguments; "
              "output[i] must hold the result of call i. distinct = (driver, backend->output, len, window, path, callback kind)",
     ),
